@@ -201,3 +201,25 @@ func init() {
 		intrinsics[k] = f
 	}
 }
+
+func init() {
+	// maps.clone is linked to the runtime: a shallow copy of the map behind the interface value
+	intrinsics["maps.clone"] = func(in *Interp, fr *Frame, a []Value) (Value, bool) {
+		if a[0].R == nil {
+			return a[0], true
+		}
+		iv := a[0].R.(*IfaceV)
+		if iv.V.R == nil {
+			return a[0], true
+		}
+		src := iv.V.R.(*MapV)
+		in.raceAccess(src, false)
+		dst := newMap()
+		for i, k := range src.Keys {
+			if src.Live[i] {
+				in.mapSet(in.cur, dst, k, copyVal(src.Vals[i]))
+			}
+		}
+		return Value{K: KIface, R: &IfaceV{T: iv.T, V: Value{K: KMap, R: dst}}}, true
+	}
+}
